@@ -10,6 +10,9 @@ from harness.world import World, candidate_imports, random_world
 
 ASSUMPTIONS = [
     "laws are checked on the verdicts the real code produced (no reference model), related modules included",
+    "Laws.tla: duality, negation, decomposition, monotonicity and the should-not batch law are proved with TLAPS for "
+    "arbitrary denotations, import relations and rules; its operators are a textual copy of RuleSem's, and TLC checks on "
+    "the bounded model that the copy and the original agree (MC_RuleSem!LawsCopyAgrees)",
     "partnership of rules (dual, negation, decomposition, alias) is re-derived by the specification's own operators",
     "single-edge additions: a second real architecture is built with one more import and observed to be exactly that",
 ]
@@ -59,6 +62,8 @@ def specs_for(ctx):
 
 
 def run(ctx):
+    from harness import tlc
+    proofs = tlc.tlaps_prove("Laws.tla")      # the algebra for arbitrary D, I, r (TLAPS); bound to RuleSem by LawsCopyAgrees
     mc = rc.model_check("W4" if ctx.quick else "W5")
     specs, meta = specs_for(ctx)
     tr, episodes, fails = rc.run_and_validate(specs)
@@ -72,7 +77,8 @@ def run(ctx):
         from harness.tlc import MachineryError
         raise MachineryError(f"vacuous run: law events {laws}")
     sample = next(e for ep in episodes for e in ep if e["k"] == "law")
-    cov = {"states": mc.distinct + tr.states, "transitions": mc.generated + tr.transitions,
+    cov = {"tlaps_obligations_proved": proofs["obligations"], "tlaps_wall_s": proofs["wall"],
+           "states": mc.distinct + tr.states, "transitions": mc.generated + tr.transitions,
            "model_states": mc.distinct, "model_transitions": mc.generated,
            "traces_validated_against_impl": len(episodes), "trace_events": tr.events, "law_instances": laws,
            "evaluations": evals, "distinct_nontrivial": nontrivial,
